@@ -89,7 +89,7 @@ theorem StableInv.closed (a b n0 : Nat) : Closed Wf (StableInv a b n0) where
     · exact h1
   pkt := fun s L prio c now _ idx b' _ _ h _ _ _ _ _ =>
     h.neutral (s' := pktStep s prio c.key now idx b') _ rfl rfl rfl
-  done := fun s L _ c now _ _ _ h _ _ _ _ _ => by
+  done := fun s L _ c now _ _ _ h _ _ _ => by
     refine h.step [Ev.stop now c.key] (transferDoneFile_log s c.key now) ?_
     intro _ hh
     rcases transferDoneFile_queue_cases s c.key now with e | e
